@@ -132,31 +132,18 @@ class SQLTaint:
             if tmpl is None:
                 self.issues.append(Issue(e, 'format template is not a constant: %s' % ast.unparse(e.left)[:40], None))
                 return 'DATA'
-            slots = template_slots(tmpl)
             args = e.right.elts if isinstance(e.right, ast.Tuple) else [e.right]
-            if len(slots) != len(args):
-                self.issues.append(Issue(e, 'template has %d slots for %d arguments' % (len(slots), len(args)), None))
-                return 'DATA'
-            for i, ((inq, spec), a) in enumerate(zip(slots, args)):
-                if spec in 'dfi':
-                    continue
-                c = self.classify(a, use, seen)
-                if inq:
-                    if c not in ('LITERAL_SAFE', 'CONST', 'TABLE'):
-                        self.issues.append(Issue(a, "slot %d is inside single quotes and receives %s (%s): a quote in it ends the literal"
-                                                 % (i + 1, ast.unparse(a)[:30], c), i))
-                else:
-                    if c not in ('QUOTED', 'FRAGMENT', 'CONST', 'TABLE'):
-                        self.issues.append(Issue(a, 'slot %d is SQL syntax and receives %s (%s) without the identifier-quoting helper'
-                                                 % (i + 1, ast.unparse(a)[:30], c), i))
-            return 'FRAGMENT'
+            return self.check_slots(e, tmpl, args, use, seen)
         if isinstance(e, ast.JoinedStr):
+            # an f-string is the same template with its slots written inline
+            tmpl, args = '', []
             for v in e.values:
-                if isinstance(v, ast.FormattedValue):
-                    c = self.classify(v.value, use, seen)
-                    if c not in ('QUOTED', 'FRAGMENT', 'CONST', 'TABLE'):
-                        self.issues.append(Issue(v, 'f-string slot receives %s (%s)' % (ast.unparse(v.value)[:30], c), None))
-            return 'FRAGMENT'
+                if isinstance(v, ast.Constant):
+                    tmpl += str(v.value).replace('%', '%%')
+                elif isinstance(v, ast.FormattedValue):
+                    tmpl += '%s'
+                    args.append(v.value)
+            return self.check_slots(e, tmpl, args, use, seen)
         if isinstance(e, (ast.ListComp, ast.GeneratorExp)):
             saved = dict(self.compvars)
             for g in e.generators:
@@ -196,6 +183,25 @@ class SQLTaint:
         uch = self.gm.chain(use) or ()
         return len(dch) <= len(uch) and all(a.test is b.test and a.pol == b.pol for a, b in zip(dch, uch))
 
+    def check_slots(self, e, tmpl, args, use, seen):
+        slots = template_slots(tmpl)
+        if len(slots) != len(args):
+            self.issues.append(Issue(e, 'template has %d slots for %d arguments' % (len(slots), len(args)), None))
+            return 'DATA'
+        for i, ((inq, spec), a) in enumerate(zip(slots, args)):
+            if spec in 'dfi':
+                continue
+            c = self.classify(a, use, seen)
+            if inq:
+                if c not in ('LITERAL_SAFE', 'CONST', 'TABLE'):
+                    self.issues.append(Issue(a, "slot %d is inside single quotes and receives %s (%s): a quote in it ends the literal"
+                                             % (i + 1, ast.unparse(a)[:30], c), i))
+            else:
+                if c not in ('QUOTED', 'FRAGMENT', 'CONST', 'TABLE'):
+                    self.issues.append(Issue(a, 'slot %d is SQL syntax and receives %s (%s) without the identifier-quoting helper'
+                                             % (i + 1, ast.unparse(a)[:30], c), i))
+        return 'FRAGMENT'
+
     def call_class(self, g, call, use, seen):
         """A helper of the same class that returns SQL text built from its parameters."""
         pos = g.posparams[1:]
@@ -228,10 +234,50 @@ class SQLTaint:
             return self.param_override[name]
         if name in TABLE_PARAMS:
             return 'TABLE'
-        if name in ('sqlagg',):
+        # a private helper's parameter is whatever its callers inside the class hand over: classify every argument at its
+        # call site (in the caller's own context) and join; a method nobody in the class calls is an entry point: DATA
+        depth = getattr(self, '_depth', 0)
+        if depth >= 3 or self.cls is None:
+            return 'DATA'
+        got = set()
+        f = self.f
+        if name not in f.posparams and name not in f.kwonly:
+            return 'DATA'
+        for h in self.cls.methods.values():
+            for c in self.prog.own_nodes(h):
+                if not (isinstance(c, ast.Call) and isinstance(c.func, ast.Attribute) and c.func.attr == f.name and
+                        isinstance(c.func.value, ast.Name) and c.func.value.id == 'self'):
+                    continue
+                arg = None
+                pos = f.posparams[1:] if f.posparams[:1] == ['self'] else f.posparams
+                if name in pos and pos.index(name) < len(c.args):
+                    arg = c.args[pos.index(name)]
+                for k in c.keywords:
+                    if k.arg == name:
+                        arg = k.value
+                if arg is None:
+                    d = f.defaults.get(name)
+                    if d is None:
+                        return 'DATA'
+                    arg = d
+                sub = SQLTaint(self.prog, self.cls)
+                sub._depth = depth + 1
+                sub.f = h
+                sub.gm = GuardMap(h.node)
+                sub.defs = {}
+                for n in self.prog.own_nodes(h):
+                    if isinstance(n, ast.Assign):
+                        for t in n.targets:
+                            if isinstance(t, ast.Name):
+                                sub.defs.setdefault(t.id, []).append(n)
+                cl = sub.classify(arg, c, set())
+                got.add('FRAGMENT' if cl == 'CONST' and isinstance(arg, ast.Constant) and isinstance(arg.value, str) else cl)
+        if not got:
+            return 'DATA'
+        if got <= {'FRAGMENT', 'CONST'}:
             self.frag_params[(self.f.name, name)] = True
             return 'FRAGMENT'
-        return 'DATA'
+        return self.join(got)
 
     @staticmethod
     def join(cls, frag=False):
@@ -259,6 +305,9 @@ class SQLTaint:
         return None
 
 
+CONST_SOURCE = [None]      # (prog, module) used to resolve named constants in dbtype tests; set by the rule
+
+
 def non_sqlite_arm(gm, node):
     """Is node under a positive test of self.dbtype that excludes sqlite?"""
     for g in gm.chain(node) or ():
@@ -267,6 +316,18 @@ def non_sqlite_arm(gm, node):
         t = ast.unparse(g.test)
         if 'dbtype' in t:
             lits = {x.value for x in ast.walk(g.test) if isinstance(x, ast.Constant) and isinstance(x.value, str)}
+            if CONST_SOURCE[0] is not None:
+                prog, mod = CONST_SOURCE[0]
+                for x in ast.walk(g.test):
+                    if isinstance(x, ast.Name) and x.id in mod.consts:
+                        try:
+                            v = prog.fold(mod, mod.consts[x.id])
+                        except Exception:
+                            continue
+                        if isinstance(v, str):
+                            lits.add(v)
+                        elif isinstance(v, (tuple, list, set, frozenset)):
+                            lits |= {y for y in v if isinstance(y, str)}
             if g.pol and lits and 'sqlite' not in lits:
                 return True
     return False
